@@ -99,6 +99,22 @@ def ident_jobs(Job, cfg=CFG_NDEBUG, tier="quick"):
             J("smells_like_watford", "h_watford", ["smells_like_watford"], loops=True, cover=True)]
 
 
+STORAGE_GROUP = ["SurfaceSelector_opposite_surface", "SurfaceSelector_corresponding_side_of_next_device",
+                 "SurfaceSelector_next", "SurfaceSelector_prev", "check_sequence_fits"]
+
+
+def storage_jobs(Job, cfg=CFG_NDEBUG, tier="quick"):
+    def J(name, entry, enforce, **kw):
+        return Job("D_%s_%s" % (name, cfg[0]), "harness/dfs_storage.c", entry, enforce=enforce, defines=list(cfg[1]),
+                   extract=ext(STORAGE_GROUP), tier=tier, **kw)
+    return [J("opposite_surface", "h_opposite", ["SurfaceSelector_opposite_surface"]),
+            J("next_device", "h_next_device", ["SurfaceSelector_corresponding_side_of_next_device"]),
+            J("surface_next", "h_next", ["SurfaceSelector_next"]),
+            J("surface_prev", "h_prev", ["SurfaceSelector_prev"]),
+            J("check_sequence_fits", "h_fits", ["check_sequence_fits"], loops=True, cover=True,
+              replace=["SurfaceSelector_opposite_surface", "SurfaceSelector_corresponding_side_of_next_device", "SurfaceSelector_prev"])]
+
+
 DFS_TRUSTED = [
     "engine/cxx2c.py: the verified text is the function body extracted from /repo on every run; rules fired and SHA-256 of the source range are in coverage.jobs[].extracted",
     "models/dfs_model.h: DataAccess::read_block as a deterministic partial function with a call log; std::function visitors as monitored calls; "
